@@ -3,7 +3,7 @@
 # repository) on which the listed properties' checks must stay silent; a VIOLATION here is a false alarm.
 cd /verif; fail=0
 while IFS=$'\t' read -r name props; do
-  [ -z "$name" ] && continue
+  case "$name" in ""|\#*) continue;; esac
   out=$(tools/refactorcheck.sh mustpass/$name.diff $props 2>&1)
   echo "$out"
   echo "$out" | grep -qv ": 0 violation(s)" && fail=1
